@@ -75,7 +75,7 @@ impl<'a> Querier<'a> {
                 #(#querier_methods_declaration)*
             }
 
-            impl <'sv_querier_lifetime, #(#generics,)* SvCustomQueryT: #sylvia ::cw_std::CustomQuery> Querier #bracketed_generics for #sylvia ::types::BoundQuerier<'sv_querier_lifetime, SvCustomQueryT, #contract > #where_clause {
+            impl <'sv_querier_lifetime, #(#generics,)* SvCustomQueryT: #sylvia ::cw_std::CustomQuery> self::Querier #bracketed_generics for #sylvia ::types::BoundQuerier<'sv_querier_lifetime, SvCustomQueryT, #contract > #where_clause {
                 #(#types_implementation)*
                 #(#querier_methods_impl)*
             }
